@@ -60,6 +60,9 @@ is_ok_result = z3.Function("is_the_result_on_an_accepted_tuple", I, B)
 ok_wit_a = z3.Const("accepted_tuple_witness_a", I)
 ok_wit_b = z3.Const("accepted_tuple_witness_b", I)
 ljust_fn = z3.Function("str_ljust", S, I, S)
+flat_has = z3.Function("is_a_part_of_some_pair", I, S, B)            # chain.from_iterable(PAIRS) yields x
+cf_in_flat = z3.Function("casefold_equal_to_a_part_of_some_pair", I, S, B)
+cff_wit = z3.Function("casefold_pair_part_witness", I, S, S)
 first_of = z3.Function("first_item_of_table", I, S)
 fmt_fn = z3.Function("encoder_format", S, I, S)                      # self.format(text, level)
 module_text = z3.Function("encode_module_text", I, I, S)             # self.encode_module(value, level)
@@ -135,7 +138,8 @@ class EncTheory(LexTheory):
             z3.ForAll([k, x, y, w], z3.Implies(z3.And(pairs_has(k, x, w), z3.Or(sub_in(x, y), sub_in(w, y))), pair_part_in(k, y)),
                       patterns=[z3.MultiPattern(pairs_has(k, x, w), pair_part_in(k, y))]),
             z3.ForAll([k, y], z3.Implies(pair_part_in(k, y), z3.And(
-                pairs_has(k, pp_a(k, y), pp_b(k, y)), z3.Or(sub_in(pp_a(k, y), y), sub_in(pp_b(k, y), y)))),
+                pairs_has(k, pp_a(k, y), pp_b(k, y)), flat_has(k, pp_a(k, y)), flat_has(k, pp_b(k, y)),
+                z3.Or(sub_in(pp_a(k, y), y), sub_in(pp_b(k, y), y)))),
                 patterns=[pair_part_in(k, y)]),
             z3.ForAll([k, x, y, w], z3.Implies(z3.And(pairs_has(k, x, w), _cm(y, x, w)), comment_match(k, y)),
                       patterns=[z3.MultiPattern(pairs_has(k, x, w), comment_match(k, y))]),
@@ -156,6 +160,13 @@ class EncTheory(LexTheory):
             z3.ForAll([v, u], z3.Implies(z3.And(rec_has(u), inst_of(v, u), type_is(mag_id(v, u), type_id("self.numeric_types")),
                                                 z3.Not(type_is(mag_id(v, u), type_id("bool")))), units_number(v)),
                       patterns=[z3.MultiPattern(rec_has(u), inst_of(v, u))]),
+            z3.ForAll([k, x, w], z3.Implies(pairs_has(k, x, w), z3.And(flat_has(k, x), flat_has(k, w))), patterns=[pairs_has(k, x, w)]),
+            z3.ForAll([k, x, y], z3.Implies(z3.And(flat_has(k, x), sub_in(x, y)), pair_part_in(k, y)),
+                      patterns=[z3.MultiPattern(flat_has(k, x), pair_part_in(k, y))]),
+            z3.ForAll([k, x, y], z3.Implies(z3.And(flat_has(k, x), casefold(x) == y), cf_in_flat(k, y)),
+                      patterns=[z3.MultiPattern(flat_has(k, x), cf_in_flat(k, y))]),
+            z3.ForAll([k, y], z3.Implies(cf_in_flat(k, y), z3.And(flat_has(k, cff_wit(k, y)), casefold(cff_wit(k, y)) == y)),
+                      patterns=[cf_in_flat(k, y)]),
             z3.ForAll([v, u], z3.Implies(z3.And(zip_has(v, u), f_ok(v, u)), z3.And(any_ok(), is_ok_result(f_res(v, u)))),
                       patterns=[z3.MultiPattern(zip_has(v, u), f_ok(v, u))]),
             z3.Implies(any_ok(), z3.And(zip_has(ok_wit_a, ok_wit_b), f_ok(ok_wit_a, ok_wit_b))),
@@ -226,7 +237,7 @@ class EncTheory(LexTheory):
         return None
 
     def global_name(self, ex, name):
-        if name in ("set", "frozenset", "list", "bool", "str", "datetime", "any", "Token", "isinstance", "len", "super", "enumerate", "max", "abc", "getattr", "zip"):
+        if name in ("set", "frozenset", "list", "bool", "str", "datetime", "any", "Token", "isinstance", "len", "super", "enumerate", "max", "abc", "getattr", "zip", "chain"):
             return FuncV(name)
         return super().global_name(ex, name)
 
@@ -258,7 +269,7 @@ class EncTheory(LexTheory):
             return ObjV("recfield", info={"rec": recv.info["id"], "field": attr})
         if isinstance(recv, ObjV) and recv.role in ("decoder", "pyval", "kwmap", "pylist"):
             return BoundM(recv, attr)
-        if isinstance(recv, FuncV) and recv.name in ("datetime", "abc"):
+        if isinstance(recv, FuncV) and recv.name in ("datetime", "abc", "chain"):
             return FuncV(recv.name + "." + attr)
         if isinstance(recv, ObjV) and recv.role == "self" and recv.cls == "Token" and attr in ("grammar", "decoder"):
             return ObjV(attr, info={"owner": "self"})
@@ -316,6 +327,14 @@ class EncTheory(LexTheory):
             ex.st.assume(set_has(recv.info["id"], x))
             return Z("str", x)
         return super().getitem(ex, recv, idx)
+
+    def b_chain_from_iterable(self, ex, args, kwargs):
+        (v,) = args
+        if isinstance(v, ObjV) and v.role == "pairs":
+            return ObjV("flatpairs", info={"id": v.info["id"]})
+        if isinstance(v, ObjV) and v.role == "strset" and str(v.info.get("name", "")).endswith(".items"):
+            return ObjV("flatpairs", info={"id": v.info["id"]})
+        raise Untranslatable("chain.from_iterable")
 
     def b_zip(self, ex, args, kwargs):
         if len(args) != 2:
@@ -540,6 +559,8 @@ class EncTheory(LexTheory):
             return self.search_loop(ex, node, itv, spec, ordn)
         if self.sv(itv) is not None and getattr(spec, "fall_through", None) is not None:
             return self.search_loop(ex, node, ObjV("chars", info={"text": self.sv(itv)}), spec, ordn)
+        if isinstance(itv, ObjV) and itv.role == "flatpairs" and getattr(spec, "fall_through", None) is not None:
+            return self.search_loop(ex, node, ObjV("flat", info={"id": itv.info["id"]}), spec, ordn)
         if isinstance(itv, ObjV) and itv.role == "ziptable" and getattr(spec, "fall_through", None) is not None:
             return self.search_loop(ex, node, ObjV("pairs-of-values", info={"id": z3.IntVal(0)}), spec, ordn)
         if isinstance(itv, ObjV) and itv.role == "records" and getattr(spec, "fall_through", None) is not None:
@@ -563,8 +584,9 @@ class EncTheory(LexTheory):
         elements = table.role in ("elements", "recordtable")
         records = table.role == "recordtable"
         k = table.info["text"] if chars else table.info["id"]
+        flat = table.role == "flat"
         member = ((lambda x: char_of(x, k)) if chars else (lambda x: rec_has(x)) if records else
-                  (lambda x: elem_of(x, k)) if elements else (lambda x: set_has(k, x)))
+                  (lambda x: elem_of(x, k)) if elements else (lambda x: flat_has(k, x)) if flat else (lambda x: set_has(k, x)))
         pairs = table.role == "pairs"
         vpairs = table.role == "pairs-of-values"
         c = ex.path.choose(2, f"for@{node.lineno}")
